@@ -76,7 +76,7 @@ def expr_tie(ctx):
     for i, (e, t) in enumerate(acc):
         pr = f"(print {e})" if not t.startswith("(opt") and t != "nil" else f"(print (bin eq {e} (nil)))"
         progs.append(f"(prog T{ctx.seed}x{i} (defs) (main {decls} {pr}))")
-    recs = mini_common.compare_programs(ctx, progs, "expressions accepted by the model checker")
+    recs = mini_common.compare_programs(ctx, progs, "expressions accepted by the model checker", reject_is_violation=True)
     for r in recs:
         ctx.case(("expr", r["src"]), sample={"program": r["src"][-200:], "reference": r["model_out"]})
 
